@@ -20,7 +20,7 @@ def main():
     else:
         chk.broken.append({'kind': 'correspondence', 'stream': 'plural-*', 'problem': 'driver could not be rebuilt from the regenerated model'})
     mult = 3 if chk.broken else 1
-    cex, tried = P.falsify_period(chk, (30000 if chk.thorough else 3000) * mult)
+    cex, tried = P.falsify_period(chk, (60000 if chk.thorough else 12000) * mult)
     tried32 = 0
     if cex is None:
         cex, tried32 = P.falsify_period_32(chk, (6000 if chk.thorough else 600) * mult)
